@@ -335,7 +335,20 @@ func runOrderDrift(c *Ctx, pkgs []string) {
 							for _, id := range provR.Defined {
 								refDef[id] = true
 							}
-							if gateOpen(rs, callSignature(g), refDef, definedCallees(c.Program)) {
+							// … nor a library routine (slices.Contains, maps.Copy …): nothing is called that was not called before
+							newCallee := false
+							had := map[string]bool{}
+							for _, e := range rs {
+								if i := strings.LastIndex(e, "×"); i >= 0 {
+									had[e[:i]] = true
+								}
+							}
+							for _, e := range callSignature(g) {
+								if i := strings.LastIndex(e, "×"); i >= 0 && !had[e[:i]] {
+									newCallee = true
+								}
+							}
+							if !newCallee && gateOpen(rs, callSignature(g), refDef, definedCallees(c.Program)) {
 								c.Fail(fk, "loops-still-repeat", c.Pos(g.Pos()), fmt.Sprintf("the function has %d loop(s), %d on the reference tree, and no helper took one over: the body of a loop now always leaves it, so only the first element – the first partition, the first backend, the first chunk – is dealt with", countLoops(g), nl))
 							}
 						}
